@@ -102,7 +102,7 @@ Section NoPanic.
       match pass_insert P finder (rc_cfg rc) (o_stop2 o) (o_rfail2 o) (o_fault o) files 0 (mkIst s false 0 [] []) with
       | PPanic _ | PHang _ => False | _ => True end) by (intros; apply pass_insert_never_panics).
     destruct (cached_id rc lk) as [id|].
-    - specialize (Hgo id). destruct (pass_insert _ _ _ _ _ _ _ _ _) as [st|st|st|st]; try contradiction; cbn;
+    - specialize (Hgo (N.max id start_id)). destruct (pass_insert _ _ _ _ _ _ _ _ _) as [st|st|st|st]; try contradiction; cbn;
         split; try discriminate; destruct (is_failure st); discriminate.
     - pose proof (pass_nextid_never_panics (rc_cfg rc) (o_stop1 o) (o_rfail1 o) files 0 []) as H1.
       destruct (pass_nextid _ _ _ _ _ _ _) as [a|a|a|rs]; try contradiction; try (split; discriminate).
